@@ -65,6 +65,11 @@ def items(tier: str, seed: int) -> List[dict]:
     its.append(dict(spec=scen.mk_spec([scen.board(seed + 60, 'competitive', D4[(seed + 1) % 4], V4[(seed + 2) % 4], policy='lowest_held'), scen.board(seed + 61, 'passout', 'S', 'Both')],
                                       fragment='crlf'), d=0, priority=True))
     its.append(dict(spec=scen.mk_spec([scen.board(seed + 62, 'slam', D4[seed % 4], 'EW')], linger=True), d=0, priority=True))
+    # 4d. the output path already holds the log of an earlier session (the file is to be overwritten)
+    old_log = '{"logs": [\n{"board_id": "left over from an earlier session"}\n]}'
+    sp = scen.mk_spec([scen.board(seed + 63, 'open1C', D4[(seed + 3) % 4], 'NS'), scen.board(seed + 64, 'passout', 'E', 'None')])
+    sp['existing_output'] = old_log
+    its.append(dict(spec=sp, d=0))
     # 5. schedules
     p1 = scen.mk_spec([scen.board(seed, 'passout', D4[seed % 4], V4[seed % 4])])
     q1 = scen.mk_spec([scen.board(seed + 1, 'doubled', D4[(seed + 1) % 4], V4[(seed + 1) % 4], policy='lowest_held')])
